@@ -672,7 +672,7 @@ func runTransfer(t *testing.T, ksc KScenario, res *KResult) {
 		// may be more than one ahead of what the client can follow)
 		if on := wOraclesEnabled("C01"); sc.ForeignPeer && sc.Cfg.KeyUpdate == 0 && (on["C07"] || on["all"]) {
 			tForeignPeerProbe(w, wo, res)
-		} else if sc.LateRebind && sc.Net.RebindAtOrd == 0 {
+		} else if sc.LateRebind {
 			lateProbe.Store(true)
 			tLateRebindProbe(w, wo, conns[0], res)
 		}
